@@ -723,8 +723,8 @@ class StmtMixin:
                 continue
             s2.tok, s2.arr['li'], s2.arr['dv'], s2.arr['dh'] = F('tok', Tok), F('li', Z.ArrRSeq), F('dv', Z.ArrDV), F('dh', Z.ArrDH)
             for i, (vname, tag) in enumerate(lc['vars']):
-                if vname in lc.get('readonly', ()) or vname.startswith('='):
-                    continue
+                if vname in lc.get('readonly', ()) or vname.startswith('=') or vname not in targets:
+                    continue      # never rebound by the loop (syntactically): the binding is unchanged (object contents live in the heap)
                 if label in ('ret', 'raise'):
                     # locals are dead on these exits: a side-specific unconstrained value, so that any later use cannot be proved equal
                     nv = z3.Int('dead_%s_%s_%d' % (getattr(self, 'side', 'x'), name.replace('.', '_'), i))
